@@ -477,7 +477,24 @@ def task_between_panel(ctx: Ctx, cal: str, years: list[int]) -> None:
                         except (ValueError, OverflowError):
                             pass
         days = sorted(set(days))
-        stride = max(1, len(days) // 60)  # at most ~60 x len(days) pairs per year pair
+        # month / year arithmetic from every month-edge date (day clamping, leap months, short last months) of these
+        # two years and the two after them (so a 4-year leap cycle is always covered)
+        more = []
+        for y in (y0 + 2, y0 + 3):
+            if c.min_year <= y <= c.max_year:
+                for m in range(1, c.get_months_in_year(y) + 1):
+                    dim = c.get_days_in_month(y, m)
+                    for d in (1, dim - 1, dim):
+                        try:
+                            more.append(LocalDate(y, m, d, c)._days_since_epoch)
+                        except (ValueError, OverflowError):
+                            pass
+        for n in days + more:
+            for k in range(-14, 15):
+                ctx.case("months", {"cal": cal, "n": n, "k": k})
+                if abs(k) <= 5:
+                    ctx.case("years", {"cal": cal, "n": n, "k": k})
+        stride = max(1, len(days) // 40)  # at most ~40 x len(days) pairs per year pair
         for i, a in enumerate(days):
             for b in days[i % stride :: stride]:
                 for units in (["months"], ["years"], ["weeks"], ["years", "months", "days"]):
